@@ -33,6 +33,12 @@ def run(ctx):
     else:
         vlib.model_check(ctx, "MCWire", "MCWire_%s.cfg" % tier, timeout=3000)
         cases = vlib.gen_cases(ctx, "MCWireGen", "MCWireGen_%s.cfg" % tier, timeout=1800)
+        # payload lengths: every length up to a few hundred bytes and the neighbours of every power of two
+        sizes = vlib.read_ndjson(vlib.gen_cases(ctx, "WireSizes", "WireSizes_%s.cfg" % tier, timeout=600))
+        allc = vlib.read_ndjson(cases) + sizes
+        cases = os.path.join(ctx.dir("cases"), "all.ndjson")
+        vlib.write_ndjson(cases, allc)
+        ctx.cov["payload_length_cases"] = len(sizes)
         nrand, nbig = (3000, 9) if ctx.quick() else (150000, 42)
     obs = os.path.join(ctx.dir("obs"), "obs.ndjson")
     vlib.run([drv, "c02", "-cases", cases, "-random", str(nrand), "-big", str(nbig),
